@@ -5,6 +5,10 @@ Domain   trees whose names come from [A-Za-z0-9._-] (so a name used as a pattern
          directory patterns (name/) - delivered via -i, repeated -i and -ii files over 1-4 generations of the top
          history, optionally with a nested child history that was sealed first with patterns of its own; commands
          create (folder mode), verify, verify -dh, diff.
+         Later additions: root-anchored patterns ('/name', '/*.ext'); generations made with -n; patterns given only on the
+         command line or in a pattern file of verify / diff / verify -dh -co; a folder excluded by 'name/' next to a file of
+         that name; a nested history folder removed before a further create -i; a rename recorded with -dr whose new
+         name is excluded afterwards (only on trees with pairwise distinct, non-empty contents).
 Oracle   an own matcher (fnmatchcase per path component; directory patterns only against non-final components)
          gives X, the excluded entries.  (1) no record for a member of X, for an ascmhl folder or .DS_Store in any
          new manifest, every other entry recorded; (2) metamorphic: a twin world from which X was removed before
